@@ -165,6 +165,8 @@ type FuncContract struct {
 	Template  []QVar    // for templates: the parameters a function must have
 	IsTempl   bool
 	LoopInvs  []*Clause // template: invariants added to every loop of the matched functions
+	Maintains  []*Clause // closures: "maintains e" over captured variables = requires e + ensures e, and assumed by the
+	// creator after every call it hands the closure to
 	PanicsWhen *Clause  // "panics when <cond>": the body may panic or stop the process only where <cond> holds
 }
 
@@ -792,7 +794,7 @@ func (p *parser) parseType() *TypeExpr {
 var clauseKeywords = map[string]bool{
 	"requires": true, "ensures": true, "modifies": true, "decreases": true, "nopanic": true,
 	"panics": true, "arith": true, "trusted": true, "inline": true, "pure": true, "loop": true,
-	"invariant": true, "ghost": true, "step": true, "exit": true, "func": true, "spec": true,
+	"invariant": true, "ghost": true, "step": true, "exit": true, "func": true, "spec": true, "maintains": true,
 	"lemma": true, "axiom": true, "field": true, "type": true, "noreturn": true, "allocates": true,
 	"trigger": true, "params": true, "opaque": true, "havocs": true, "maypanic": true,
 	"channel": true, "free": true, "functype": true, "ghostvar": true, "package": true, "private": true, "template": true, "framed": true, "notemplate": true, "globalinv": true, "guarded": true,
@@ -1273,6 +1275,17 @@ func (C *Contracts) parseStatements(pkg, path string, stmts []rawLine) (err erro
 			}
 			C.Templates = append(C.Templates, t)
 			cur, curLoop, curLemma = t, nil, nil
+		case "maintains":
+			if cur == nil {
+				return cerr(st, "maintains outside func")
+			}
+			c, err := mkClause("maintains", true)
+			if err != nil {
+				return err
+			}
+			cur.Maintains = append(cur.Maintains, c)
+			cur.Requires = append(cur.Requires, c)
+			cur.Ensures = append(cur.Ensures, c)
 		case "requires", "ensures":
 			c, err := mkClause(kw, true)
 			if err != nil {
